@@ -28,17 +28,17 @@ theorem client_success_implies {Ct} (P : XP Ct) (cfg : CCfg) (t : CTape) (ms : L
     (r : CResult) (outs : List (Msg Ct)) (h : crun P cfg t .waitResPQ ms = (.done r, outs)) :
     ∃ sn pq fps fp ans d hash rest,
       ms = .resPQ t.nonce sn pq fps :: .dhOk t.nonce sn ans :: .genOk t.nonce sn hash :: rest ∧
-      fp ∈ cfg.keys ∧ fp ∈ fps ∧ pq ≤ 2 ^ 63 ∧
+      fp ∈ cfg.keys ∧ fp ∈ fps ∧ pq ≤ 2 ^ 63 ∧ 1 < pq ∧ P.isPrime pq = false ∧
       P.decS (tempAESKeys P.sha1 t.newNonce sn) ans = some d ∧
       d.nonce = t.nonce ∧ d.serverNonce = sn ∧
       checkDH P.isPrime d.g d.dhPrime = true ∧
       checkDHParams d.dhPrime d.g.toNat d.gA (powMod d.g.toNat t.b d.dhPrime) = true ∧
       hash = nonceHash1 P.sha1 t.newNonce (keyBytes (d.gA ^ t.b % d.dhPrime)) ∧
       r = ⟨d.gA ^ t.b % d.dhPrime, serverSalt t.newNonce sn, t.sessionId⟩ := by
-  obtain ⟨sn, pq, fps, fp, p, q, ans, d, hash, rest, hms, hsel, hpq, _, hdec, hn, hsn, hdh, hpar, hh, hr⟩ :=
+  obtain ⟨sn, pq, fps, fp, p, q, ans, d, hash, rest, hms, hsel, hpq, hcomp, _, hdec, hn, hsn, hdh, hpar, hh, hr⟩ :=
     crun_done_implies P cfg t ms r outs h
   have hmem := selectKey_mem _ _ _ hsel
-  refine ⟨sn, pq, fps, fp, ans, d, hash, rest, hms, hmem.1, hmem.2, ?_, hdec, hn, hsn, hdh, hpar, ?_, ?_⟩
+  refine ⟨sn, pq, fps, fp, ans, d, hash, rest, hms, hmem.1, hmem.2, ?_, hcomp.1, hcomp.2, hdec, hn, hsn, hdh, hpar, ?_, ?_⟩
   · have : pqMax = 2 ^ 63 := by decide
     omega
   · rw [← hh, powMod_eq]
@@ -92,7 +92,7 @@ theorem success_implies_safe_gb {Ct} (P : XP Ct) (cfg : CCfg) (t : CTape) (ms : 
       1 < d.g.toNat ^ t.b % d.dhPrime ∧ d.g.toNat ^ t.b % d.dhPrime < d.dhPrime - 1 ∧
       2 ^ 1984 < d.g.toNat ^ t.b % d.dhPrime ∧ d.g.toNat ^ t.b % d.dhPrime < d.dhPrime - 2 ^ 1984 ∧
       2 ^ 1984 < d.gA ∧ d.gA < d.dhPrime - 2 ^ 1984 := by
-  obtain ⟨sn, pq, fps, fp, ans, d, hash, rest, hms, _, _, _, hdec, _, _, _, hpar, _⟩ :=
+  obtain ⟨sn, pq, fps, fp, ans, d, hash, rest, hms, _, _, _, _, _, hdec, _, _, _, hpar, _⟩ :=
     client_success_implies P cfg t ms r outs h
   obtain ⟨_, _, _, _, hb1, hb2, ha3, ha4, hb3, hb4⟩ := checkDHParams_true _ _ _ _ hpar
   have hmin : safetyMin = 2 ^ 1984 := by
@@ -120,22 +120,25 @@ theorem dh_validators_are :
   decide
 
 /-- A ResPQ that does not echo the client's nonce, or offers no trusted fingerprint, or a pq above
-2^63, is refused. -/
+2^63, or a pq that is 0, 1 or prime (not a product of two primes: `DecomposePQ` would divide by zero
+or never return), is refused — before the factorisation is attempted. -/
 theorem bad_respq_refused {Ct} (P : XP Ct) (cfg : CCfg) (t : CTape) (n sn : Bytes) (pq : Nat) (fps : List Nat)
-    (hbad : n ≠ t.nonce ∨ (∀ k ∈ cfg.keys, k ∉ fps) ∨ 2 ^ 63 < pq) :
+    (hbad : n ≠ t.nonce ∨ (∀ k ∈ cfg.keys, k ∉ fps) ∨ 2 ^ 63 < pq ∨ pq ≤ 1 ∨ P.isPrime pq = true) :
     ∃ e, onResPQ P cfg t (.resPQ n sn pq fps) = (.failed e, none) := by
   rcases onResPQ_cases P cfg t (.resPQ n sn pq fps) with h | ⟨c, o, h⟩
   · exact h
   · exfalso
-    obtain ⟨sn', pq', fps', fp, p, q, hm, hsel, hpq, _, _, _⟩ := onResPQ_some P cfg t _ c o h
+    obtain ⟨sn', pq', fps', fp, p, q, hm, hsel, hpq, hcomp, _, _, _⟩ := onResPQ_some P cfg t _ c o h
     simp only [Msg.resPQ.injEq] at hm
     obtain ⟨rfl, rfl, rfl, rfl⟩ := hm
     have hmem := selectKey_mem _ _ _ hsel
     have : pqMax = 2 ^ 63 := by decide
-    rcases hbad with h | h | h
+    rcases hbad with h | h | h | h | h
     · exact h rfl
     · exact h fp hmem.1 hmem.2
     · omega
+    · omega
+    · rw [hcomp.2] at h; exact Bool.noConfusion h
 
 /-- Altered nonces or an answer that does not decrypt under the temporary key are refused. -/
 theorem bad_dh_params_refused {Ct} (P : XP Ct) (t : CTape) (sn n sn' : Bytes) (ans : Ct)
@@ -178,7 +181,7 @@ theorem no_valid_answer_no_success {Ct} (P : XP Ct) (cfg : CCfg) (t : CTape) (ms
     (hno : ∀ n sn ans, Msg.dhOk n sn ans ∈ ms → P.decS (tempAESKeys P.sha1 t.newNonce sn) ans = none)
     (r : CResult) (outs : List (Msg Ct)) : crun P cfg t .waitResPQ ms ≠ (.done r, outs) := by
   intro h
-  obtain ⟨sn, pq, fps, fp, ans, d, hash, rest, hms, _, _, _, hdec, _⟩ := client_success_implies P cfg t ms r outs h
+  obtain ⟨sn, pq, fps, fp, ans, d, hash, rest, hms, _, _, _, _, _, hdec, _⟩ := client_success_implies P cfg t ms r outs h
   have := hno t.nonce sn ans (by rw [hms]; simp)
   rw [this] at hdec
   simp at hdec
@@ -230,6 +233,7 @@ theorem client_guards_are :
       ("", "res.Nonce != nonce", "ResPQ nonce mismatch"),
       ("", "selectedPubKey.Zero()", "ErrKeyFingerprintNotFound"),
       ("", "pq.Cmp(pqMax) > 0", "server provided bad pq"),
+      ("", "pq.Cmp(big.NewInt(1)) <= 0 || pq.ProbablyPrime(0)", "server provided bad pq: not composite"),
       ("", "p.Nonce != nonce", "ServerDHParamsOk nonce mismatch"),
       ("", "p.ServerNonce != serverNonce", "ServerDHParamsOk server nonce mismatch"),
       ("", "err != nil", "exchange answer decrypt"),
